@@ -128,7 +128,7 @@ theorem chain_eq (env : Env) (fuel : Nat) (scs : List String) :
 
 /-- the block of a class with a chain ancestry: the inherited part is `n03_inheritedLog` -/
 theorem chain_block (env : Env) (fuel : Nat) (c : Class) (ks : List Class)
-    (hchain : n03_chain env fuel c.superclasses = some ks) (hab : c.isAbstract = false) :
+    (hchain : n03_chain env fuel c.renderedSupers = some ks) (hab : c.isAbstract = false) :
     n03_classLog env (fuel + 1) c = ("class", c.id) ::
       (n03_attrLog c.attributes
         ++ (c.classes.filter (·.isPublic)).flatMap (n03_classLog env fuel)
@@ -136,13 +136,13 @@ theorem chain_block (env : Env) (fuel : Nat) (c : Class) (ks : List Class)
         ++ n03_inheritedLog env fuel (n03_ownNames c) ks
         ++ [("endclass", c.id)]) := by
   rw [n03_classLog_succ]
-  have hi := n03_chain_log env fuel c.superclasses ks (n03_ownNames c) (n03_ownNames c) hchain (fun _ => Iff.rfl)
-  by_cases he : c.superclasses.isEmpty = true
-  · have hnil : c.superclasses = [] := by simpa using he
+  have hi := n03_chain_log env fuel c.renderedSupers ks (n03_ownNames c) (n03_ownNames c) hchain (fun _ => Iff.rfl)
+  by_cases he : c.renderedSupers.isEmpty = true
+  · have hnil : c.renderedSupers = [] := by simpa using he
     rw [hnil] at hi
     simp only [List.filter_nil, List.flatMap_nil] at hi
     simp only [he, Bool.not_true, Bool.false_and, Bool.false_eq_true, if_false, ← hi]
-  · have he' : c.superclasses.isEmpty = false := by simpa using he
+  · have he' : c.renderedSupers.isEmpty = false := by simpa using he
     simp only [he', hab, Bool.not_false, Bool.and_self, if_true, hi]
 
 /-- per ancestor, nearest first: its methods that are visible (public, or without `_` prefix) and whose name
@@ -166,7 +166,7 @@ theorem inheritedLog_eq (env : Env) (fuel : Nat) (defined : List String) (k : Cl
     is visible, is not defined by the class itself, and is not the name of a visible method of a nearer
     ancestor — a shadowed method is not logged. -/
 theorem inherited_once_chain (env : Env) (fuel : Nat) (c : Class) (ks : List Class)
-    (hchain : n03_chain env fuel c.superclasses = some ks) :
+    (hchain : n03_chain env fuel c.renderedSupers = some ks) :
     n03_topMeths (n03_inheritedLog env fuel (n03_ownNames c) ks) =
         (n03_inheritedMeths (n03_ownNames c) ks).map (fun m => (if m.isProperty then "prop" else "fun", m.id)) ∧
     ∀ m : Function, m ∈ n03_inheritedMeths (n03_ownNames c) ks ↔
